@@ -115,6 +115,41 @@ class EncAnalysis(Analysis):
         super().transfer(ev, st)
 
 
+def decoder_family(prog):
+    """(implementation, names): the decoder is entered through qb_vsnprintf_deserialize; a function that only hands its
+    parameters to another one and returns its result is a wrapper, the function with the directive switch is the
+    implementation.  names = the implementation and every wrapper of it in the analysed units."""
+    def forwards_to(f):
+        cs = [ev for ev in f.calls() if prog.has_fn(ev.callee)]
+        rets = f.returns()
+        if len(cs) != 1 or len(rets) != 1 or _switch_block_or_none(f) is not None:
+            return None
+        r = unwrap(rets[0].e) if rets[0].e is not None else {}
+        if callee_of(r) != cs[0].callee:
+            return None
+        pn = [q['n'] for q in f.params]
+        if [estr(unwrap(a)) for a in cs[0].args[:len(pn)]] != pn:
+            return None
+        return cs[0].callee
+    f = prog.fn('qb_vsnprintf_deserialize')
+    names = {f.name}
+    for _ in range(4):
+        t = forwards_to(f)
+        if t is None:
+            break
+        f = prog.fn(t)
+        names.add(t)
+    for g in prog.all_fns():
+        if g.name not in names and forwards_to(g) in names:
+            names.add(g.name)
+    return f, names
+
+
+def _switch_block_or_none(f):
+    sws = [b for b in f.blocks.values() if any(isinstance(lab, tuple) and lab[0] == 'case' for (_t, lab) in b.succs)]
+    return sws[0] if sws else None
+
+
 def report(ctx, an, fname, rule):
     n = 0
     for (ev, key, text, ok) in an.obligations:
@@ -155,7 +190,7 @@ def run(ctx):
     ctx.check('R1', 'serialize:returns<=max_len', okr, e, 'the encoder reports a length <= max_len (for max_len >= 1)',
               'the encoder can report more bytes than max_len: the blackbox commits a chunk longer than it reserved')
     # decoder (API contract: str_len >= 1)
-    d = prog.fn('qb_vsnprintf_deserialize')
+    d, dnames = decoder_family(prog)
     sp, lp = d.params[0]['n'], d.params[1]['n']
     fmt_arr = [ev for ev in d.events('DECL') if prog.type_info(ev.d.get('ty', '')).get('kind') == 'array']
     bufs = {sp: Lin.term(lp)}
@@ -167,7 +202,9 @@ def run(ctx):
     if n < 20:
         raise AnalysisBroken('qb_vsnprintf_deserialize: only %d store obligations' % n)
     ctx.note('decoder analysed under the API contract str_len >= 1 (every in-tree caller passes a constant >= 1)')
-    for (g, ev) in prog.callers_of('qb_vsnprintf_deserialize'):
+    for (g, ev) in [x for nm in sorted(dnames) for x in prog.callers_of(nm)]:
+        if g.name in dnames:
+            continue
         c = cval(unwrap(ev.args[1]))
         ctx.check('R2', 'deserialize:caller-capacity:%s' % g.name, c is not None and c >= 1, ev, 'the caller passes a constant capacity %s' % c,
                   'the caller passes a capacity the rule cannot see to be >= 1')
